@@ -143,7 +143,7 @@ func (q *Query) Print() string {
 
 	var orderBy string
 	if q.orderBy != "" {
-		orderBy = fmt.Sprintf(" orderby %s", q.orderBy)
+		orderBy = fmt.Sprintf(" orderby %s", escapeString(q.orderBy))
 	}
 
 	var limit string
